@@ -207,7 +207,11 @@ impl Monitor for C04 {
         let max_plain = self.tier.pick(150_000, 400_000);
         if k < self.n_streams {
             let mut r = Rng::derive(self.seed, 0x0401, k, 0);
-            let (label, d) = match k % 20 {
+            let (label, d) = match if k % 40 == 39 { 99 } else { k % 20 } {
+                99 => {
+                    let s = streams::boundary_dense_stream(&mut r, 150_000);
+                    (s.recipe.clone(), s.bytes)
+                }
                 0 => {
                     let (name, d, _) = special::shape(k / 20, &mut r);
                     (format!("shape: {}", name), d)
